@@ -9,6 +9,8 @@ import (
 	"time"
 
 	"github.com/ory/fosite"
+	"github.com/ory/fosite/handler/oauth2"
+	"github.com/ory/fosite/token/jwt"
 
 	"fverif/run"
 	"fverif/sim"
@@ -155,6 +157,10 @@ func C07(c *run.Ctx) {
 		k := c07Config(gi + int(c.Seed)*5)
 		ov := randOverrides(r)
 		w := c07World(k, ov)
+		if gi%8 == 5 {
+			c07ShippedSessions(c, r, id, k, ov)
+			continue
+		}
 		switch gi % 4 {
 		case 0, 1:
 			c07TokenWalk(c, r, id, k, ov, w)
@@ -398,4 +404,93 @@ func c07Assertions(c *run.Ctx, r *rand.Rand, id string, k c07cfg, w *world.World
 		c07Judge(c, id, "client_assertion", off, out.Err == nil, world.ErrDetail(out.Err), hist)
 	}
 	c.Sample(map[string]interface{}{"kind": "assertions", "config": k.String(), "presentations": hist})
+}
+
+// c07ShippedSessions repeats the token walk with the session types fosite ships (fosite.DefaultSession for opaque,
+// oauth2.JWTSession for JWT access tokens) instead of the harness's own session type: their Clone / expiry bookkeeping
+// is what integrators run. No OpenID Connect flows (those need an openid.Session).
+func c07ShippedSessions(c *run.Ctx, r *rand.Rand, id string, k c07cfg, ov *fosite.ClientLifespanConfig) {
+	factory := func(sub string) fosite.Session {
+		if k.JWT {
+			return &oauth2.JWTSession{JWTClaims: &jwt.JWTClaims{Subject: sub, Extra: map[string]interface{}{}}, JWTHeader: &jwt.Headers{Extra: map[string]interface{}{}}, Subject: sub}
+		}
+		return &fosite.DefaultSession{Subject: sub}
+	}
+	w := world.New(world.Opts{JWTAccess: k.JWT, Mode: world.Mode{DB: k.DB}, SessFactory: factory, Cfg: func(cfg *fosite.Config) {
+		cfg.AccessTokenLifespan, cfg.RefreshTokenLifespan, cfg.AuthorizeCodeLifespan = k.AT, k.RT, k.Code
+	}})
+	sc := []string{"offline", "fosite"}
+	w.AddClient(world.ClientSpec{ID: "ls-plain", Kind: "lifespan", Secret: "secret-lp", RedirectURIs: []string{"https://lp.example/cb"},
+		GrantTypes: world.AllGrants, ResponseTypes: world.AllResponseTypes, Scopes: sc, Lifespans: ov})
+	s := sim.New(w, c, c07Judged...)
+	s.CaseID = id
+	s.BothHints = true
+	s.LifeFn = func(client string, gt fosite.GrantType, tt fosite.TokenType, fallback time.Duration) time.Duration {
+		if client == "ls-plain" {
+			return wantLife(ov, gt, tt, fallback)
+		}
+		return fallback
+	}
+	type sched struct {
+		t   *sim.Tok
+		off time.Duration
+	}
+	var plan []sched
+	for _, cl := range []string{"ls-plain", "conf-a"} {
+		for rep := 0; rep < 2; rep++ {
+			if g := s.Authorize(sim.AuthzReq{Client: cl, RT: "code", Scopes: sc}); g != nil {
+				s.Redeem(g, sim.RedeemOpts{})
+				if g.Latest != nil {
+					plan = append(plan, sched{g.Latest, []time.Duration{-time.Second, time.Second}[rep]})
+				}
+			}
+			if g := s.Password(cl, sc); g != nil && g.Latest != nil {
+				plan = append(plan, sched{g.Latest, []time.Duration{-time.Second, time.Second}[rep]})
+			}
+		}
+		s.Authorize(sim.AuthzReq{Client: cl, RT: "token", Scopes: sc})
+		if g := s.Authorize(sim.AuthzReq{Client: cl, RT: "code", Scopes: sc}); g != nil {
+			s.Advance(time.Duration(1+r.Intn(60)) * time.Second)
+			s.Redeem(g, sim.RedeemOpts{})
+			if g.Latest != nil {
+				s.Advance(time.Duration(1+r.Intn(60)) * time.Second)
+				s.Refresh(g.Latest, "", nil)
+			}
+		}
+		s.ClientCredentials(cl, []string{"fosite"}, nil)
+	}
+	s.Sweep("minted")
+	done := map[*sim.Tok]bool{}
+	for steps := 0; steps < 300; steps++ {
+		now := time.Now()
+		var next time.Time
+		consider := func(t time.Time) {
+			if t.After(now) && (next.IsZero() || t.Before(next)) {
+				next = t
+			}
+		}
+		for _, t := range s.Toks {
+			if !t.Exp.IsZero() && t.Dead == "" && t.Fuzzy == "" {
+				consider(t.Exp.Add(-time.Second))
+				consider(t.Exp)
+				consider(t.Exp.Add(time.Second))
+			}
+		}
+		if next.IsZero() {
+			break
+		}
+		s.Advance(next.Sub(now))
+		now = time.Now()
+		for _, p := range plan {
+			if !done[p.t] && !p.t.Exp.IsZero() && now.Equal(p.t.Exp.Add(p.off)) && p.t.Dead == "" {
+				done[p.t] = true
+				s.Refresh(p.t, "", nil)
+			}
+		}
+		s.Sweep("walk")
+	}
+	s.Advance(400 * 24 * time.Hour)
+	s.Sweep("far")
+	c.Count("c07_shipped_session_walks", 1)
+	c.Sample(map[string]interface{}{"kind": "token-walk with fosite's own session types", "config": k.String(), "steps": len(s.Hist)})
 }
